@@ -34,6 +34,24 @@ class SyntaxUtils:
     """Various helpful syntax-related utility methods."""
 
     @staticmethod
+    def has_effect(node: pr.Node) -> bool:
+        """Check if evaluating an expression assigns to a variable.
+
+        Arguments:
+            node (pr.Node): expression AST node, or None.
+
+        Returns:
+            True if the expression contains an assignment, `++` or `--`.
+        """
+        if node is None:
+            return False
+        if isinstance(node, pr.Assignment) or (
+                isinstance(node, pr.UnaryOp) and
+                node.op in ('++', '--', 'p++', 'p--')):
+            return True
+        return any(SyntaxUtils.has_effect(c) for _, c in node.children())
+
+    @staticmethod
     def array_name(node: pr.ArrayRef) -> str:
         """Find array identifier.
 
@@ -316,6 +334,9 @@ class Coverage(BaseAnalysis):
                 for loop is mwp-loop compatible, otherwise False. The second
                 is the name of iteration guard variable X, possibly `None`.
         """
+        if SyntaxUtils.has_effect(node.cond):
+            logger.debug("Loop condition changes a variable")
+            return False, None
         loop_x, body = Variables.loop_guard(node)
         if len(loop_x) != 1:  # exactly one guard variable
             logger.debug(f"Unknown loop guard variable in {loop_x}")
@@ -401,6 +422,9 @@ class Coverage(BaseAnalysis):
         self._recurse_attr(node, 'body', *args, **kwargs)
 
     def If(self, node: pr.If, *args, **kwargs):
+        # the analysis does not look at conditions: they must be effect-free
+        if SyntaxUtils.has_effect(node.cond):
+            return self.handler(node, *args, **kwargs)
         t_kwargs = {**kwargs, 'clear': SyntaxUtils.rm_attr(node, 'iftrue')}
         self._recurse_attr(node, 'iftrue', *args, **t_kwargs)
         e_kwargs = {**kwargs, 'clear': SyntaxUtils.rm_attr(node, 'iffalse')}
@@ -423,6 +447,8 @@ class Coverage(BaseAnalysis):
             self._recurse_attr(node, 'expr', *args, **kwargs)
 
     def While(self, node: pr.While, *args, **kwargs):
+        if SyntaxUtils.has_effect(node.cond):
+            return self.handler(node, *args, **kwargs)
         cmp = self.maybe_compound(node, 'stmt')
         if cmp:
             self._iter_attr(cmp, 'block_items', *args, **kwargs)
@@ -448,8 +474,7 @@ class FindLoops(BaseAnalysis):
             self.loops.append(node)
 
     def DoWhile(self, node: pr.DoWhile, *args, **kwargs):
-        self.handler(node, *args, **kwargs)
-        self._recurse_attr(node, 'stmt', *args, **kwargs)
+        self.While(node, *args, **kwargs)
 
     def For(self, node: pr.For, *args, **kwargs):
         if Coverage.loop_compat(node)[0]:
@@ -467,7 +492,8 @@ class FindLoops(BaseAnalysis):
         self._recurse_attr(node, 'stmt', *args, **kwargs)
 
     def While(self, node: pr.While, *args, **kwargs):
-        self.handler(node, *args, **kwargs)
+        if not SyntaxUtils.has_effect(node.cond):  # else: not analysable
+            self.handler(node, *args, **kwargs)
         self._recurse_attr(node, 'stmt', *args, **kwargs)
 
 
